@@ -11,7 +11,8 @@ Not a theorem (cryptographic, labelled partial in the manifest): "any change to 
 tag, nonce or additional data makes GCM decryption fail" — exercised on the real code by
 all single-bit flips.
 -/
-import Golib.Proof.C08Wrap
+import Golib.Proof.C08Main
+import Golib.Gen.FactsC08
 
 namespace Golib.C08
 
@@ -20,34 +21,19 @@ namespace Golib.C08
 theorem c08_encLen (n : Nat) :
     cbcEncryptLen n = (n / 16 + 1) * 16 ∧ n < cbcEncryptLen n ∧ cbcEncryptLen n ≤ n + 16 ∧
       cbcEncryptLen n % 16 = 0 ∧ cbcDecryptLen n = n := by
-  rw [encLen_eq]; unfold cbcDecryptLen; omega
+  apply main_encLen <;> assumption
 
 /-- The table built by `init()`: 17 entries, entry `n` is `n` bytes of value `n`. -/
 theorem c08_table :
-    prePadPatterns.length = 17 ∧ ∀ n, n ≤ 16 → prePadPatterns[n]? = some (List.replicate n n) :=
-  ⟨table_length, table_get⟩
+    prePadPatterns.length = 17 ∧ ∀ n, n ≤ 16 → prePadPatterns[n]? = some (List.replicate n n) := by
+  apply main_table <;> assumption
 
 /-- `PKCS7UnPadding(PKCS7Padding(d, b), b) = d` for every non-empty `d` and block size
 `1..255`; the padded length is the next multiple of `b` strictly above `|d|`. -/
 theorem c08_pad_unpad (d : Bytes) (b : Nat) (hd : d ≠ []) (hb1 : 1 ≤ b) (hb : b ≤ 255) :
     ∃ x, pkcs7Padding d b = .ok x ∧ pkcs7UnPaddingPub x b = .ok d ∧
       x.length = (d.length / b + 1) * b := by
-  have hlt : d.length % b < b := Nat.mod_lt _ (by omega)
-  have hp256 : b - d.length % b < 256 := by omega
-  refine ⟨_, pad_spec d b hd hb1, ?_, ?_⟩
-  · rw [show toByte (b - d.length % b) = b - d.length % b from Nat.mod_eq_of_lt hp256]
-    apply unpad_complete d (b - d.length % b) b (by omega) (by omega) hp256
-    rw [Int.tmod_eq_emod_of_nonneg (by omega)]
-    have : (d ++ List.replicate (b - d.length % b) (b - d.length % b)).length
-        = (d.length / b + 1) * b := by
-      simp only [List.length_append, List.length_replicate]
-      have := Nat.div_add_mod d.length b
-      rw [Nat.add_mul, Nat.one_mul, Nat.mul_comm]; omega
-    rw [this, Int.natCast_mul]
-    exact Int.mul_emod_left _ _
-  · simp only [List.length_append, List.length_replicate]
-    have := Nat.div_add_mod d.length b
-    rw [Nat.add_mul, Nat.one_mul, Nat.mul_comm]; omega
+  apply main_pad_unpad <;> assumption
 
 /-- The public un-padding succeeds EXACTLY on correctly padded multiples of the block size
 and then returns the data; every other input (any bytes, any block size, also `≤ 0`) is an
@@ -57,15 +43,7 @@ theorem c08_unpad_sound_complete (x : Bytes) (b : Int) (hx : IsBytes x) :
     ∀ d, pkcs7UnPaddingPub x b = .ok d ↔
       ∃ n : Nat, x = d ++ List.replicate n n ∧ 1 ≤ n ∧ (n : Int) ≤ b ∧
         Int.tmod (x.length : Int) b = 0 := by
-  refine ⟨(unpad_sound x b).1, fun d => ⟨fun h => ?_, ?_⟩⟩
-  · obtain ⟨n, h1, h2, h3, _, h5⟩ := (unpad_sound x b).2 d h
-    exact ⟨n, h1, h2, h3, h5⟩
-  · rintro ⟨n, rfl, h2, h3, h5⟩
-    have hn : n < 256 := by
-      apply hx n
-      rw [List.mem_append, List.mem_replicate]
-      exact Or.inr ⟨by omega, rfl⟩
-    exact unpad_complete d n b h2 h3 hn h5
+  apply main_unpad_sound_complete <;> assumption
 
 /-- The private table-based un-padding used inside CBC decryption, on any buffer of at
 least one block: never panics; succeeds exactly on `d ++ n × n` with `1 ≤ n ≤ 16`, returning `|d|`. -/
@@ -74,12 +52,7 @@ theorem c08_unpad_private (x : Bytes) (h16 : 16 ≤ x.length) :
     ∀ m : Int, pkcs7UnPadding x = .ok m ↔
       ∃ n : Nat, 1 ≤ n ∧ n ≤ 16 ∧ m = (x.length : Int) - n ∧
         x = x.take (x.length - n) ++ List.replicate n n := by
-  obtain ⟨h1, h2, h3⟩ := unpadPriv_spec x h16
-  refine ⟨h1, fun m => ⟨h2 m, ?_⟩⟩
-  rintro ⟨n, hn1, hn16, rfl, hx⟩
-  have := h3 _ n hn1 hn16 hx
-  rw [this]; congr 1
-  simp only [List.length_take]; omega
+  apply main_unpad_private <;> assumption
 
 /-- `AESCBCEncrypt` writes exactly `AESCBCEncryptLen` bytes — standard CBC over the
 PKCS#7-padded plaintext — and `AESCBCDecrypt` recovers exactly the plaintext, for every
@@ -97,21 +70,7 @@ theorem c08_cbc_roundtrip (C : Cipher) (key iv pt dst : Bytes) (lay : DecLayout)
       ct = cbcEncrypt (C.E key) iv (pt ++ List.replicate (16 - pt.length % 16) (16 - pt.length % 16)) ∧
       ct.length = cbcEncryptLen pt.length ∧
       ∃ d, aesCBCDecrypt C lay ct key iv = .ok ((pt.length : Int), d) ∧ d.take pt.length = pt := by
-  refine ⟨_, aesCBCEncrypt_spec C dst pt key iv hk hiv hdst, rfl, ?_, ?_⟩
-  · have := cbcEncrypt_length (C.E key) (hE key) _ iv (padded pt) hiv (padded_blocks pt)
-    rw [padded_length] at this; exact this
-  · have hl := cbcEncrypt_length (C.E key) (hE key) _ iv (padded pt) hiv (padded_blocks pt)
-    have hl' : (cbcEncrypt (C.E key) iv (padded pt)).length = 16 * (pt.length / 16 + 1) := by
-      rw [hl, padded_blocks]
-    change ∃ d, aesCBCDecrypt C lay (cbcEncrypt (C.E key) iv (padded pt)) key iv = _ ∧ _
-    rw [aesCBCDecrypt_eq C lay _ key iv hk hiv (by omega) (by omega)
-      (by intro d hd; rw [hlay d hd, hl, padded_length])]
-    rw [cbc_roundtrip (C.E key) (C.D key) (hE key) (hDE key) _ iv (padded pt) hiv (padded_blocks pt)]
-    have hpr := padLen_range pt.length
-    have := (unpadPriv_spec (padded pt) (by rw [padded_blocks]; omega)).2.2 pt (padLen pt.length)
-      hpr.1 hpr.2 rfl
-    rw [this]
-    exact ⟨padded pt, rfl, by simp [padded]⟩
+  apply main_cbc_roundtrip <;> assumption
 
 /-- `AESCBCDecrypt` on ANY ciphertext: a length that is not a positive multiple of 16 is
 rejected before anything is sliced; otherwise (valid key, 16-byte IV, documented layouts) it
@@ -129,40 +88,7 @@ theorem c08_cbc_decrypt_rejects (C : Cipher) (lay : DecLayout) (ct key iv : Byte
         d = cbcDecrypt (C.D key) iv ct ∧
         ∃ p : Nat, 1 ≤ p ∧ p ≤ 16 ∧ n = (ct.length : Int) - p ∧
           d = d.take (ct.length - p) ++ List.replicate p p) := by
-  refine ⟨aesCBCDecrypt_badlen C lay ct key iv, ?_, ?_⟩
-  · intro hk
-    by_cases h : ct.length < 16 ∨ ct.length % 16 ≠ 0
-    · exact Or.inl (aesCBCDecrypt_badlen C lay ct key iv h)
-    · right
-      unfold aesCBCDecrypt
-      have h1 : ¬ (ct.length < aesBlockSize ∨ ct.length &&& blockSizeMask ≠ 0) := by
-        rw [and15]; simpa only [aesBlockSize] using h
-      have hk' : ¬ keyOK key = true := by simp [hk]
-      rw [if_neg h1, if_pos hk']
-  · intro hk hiv h16 hmul hlay hD
-    rw [aesCBCDecrypt_eq C lay ct key iv hk hiv h16 hmul hlay]
-    have hlen := cbcDecrypt_length (C.D key) hD (ct.length / 16) iv ct hiv (by omega)
-    generalize cbcDecrypt (C.D key) iv ct = P at hlen ⊢
-    obtain ⟨hnp, hok⟩ := c08_unpad_private P (by omega)
-    cases hr : pkcs7UnPadding P with
-    | panic => exact absurd hr hnp
-    | err e =>
-      refine ⟨by simp, fun n d => ⟨by simp, ?_⟩⟩
-      rintro ⟨rfl, p, hp1, hp16, rfl, hd⟩
-      have := (hok _).2 ⟨p, hp1, hp16, rfl, by rw [hlen]; exact hd⟩
-      rw [hr] at this; cases this
-    | ok m =>
-      refine ⟨by simp, fun n d => ⟨?_, ?_⟩⟩
-      · intro h
-        injection h with h; injection h with h1 h2
-        subst h1 h2
-        obtain ⟨p, hp1, hp16, hm, hx⟩ := (hok _).1 hr
-        exact ⟨rfl, p, hp1, hp16, by rw [hm, hlen], by rw [← hlen]; exact hx⟩
-      · rintro ⟨rfl, p, hp1, hp16, rfl, hd⟩
-        have := (hok _).2 ⟨p, hp1, hp16, rfl, by rw [hlen]; exact hd⟩
-        rw [hr] at this
-        injection this with this
-        rw [this, hlen]
+  apply main_cbc_decrypt_rejects <;> assumption
 
 /-- The GCM length helpers are exact: with `dst` sized by `AESGCMEncryptLen`, `AESGCMEncrypt`
 leaves exactly `Seal`'s output (ciphertext ‖ 16-byte tag) in `dst`; `AESGCMDecryptLen`
@@ -174,11 +100,7 @@ theorem c08_gcm_lens (A : AEAD) (dst pt key nonce ad : Bytes)
     gcmEncryptLen pt.length = pt.length + 16 ∧
     gcmDecryptLen (gcmEncryptLen pt.length) = pt.length ∧
     aesGCMEncrypt A dst pt key nonce ad = .ok (A.sealF key nonce pt ad) := by
-  refine ⟨rfl, by simp only [gcmDecryptLen, gcmEncryptLen, gcmTagSize]; omega, ?_⟩
-  unfold aesGCMEncrypt
-  have hk' : ¬ (¬ keyOK key = true) := by simp [hk]
-  have hn' : ¬ nonce.length = 0 := fun h => hn (List.length_eq_zero_iff.mp h)
-  rw [if_neg hk', if_neg hn', appendInto_exact _ _ (by rw [hdst, hseal]; rfl)]
+  apply main_gcm_lens <;> assumption
 
 /-- `AESGCMDecrypt(AESGCMEncrypt(p)) = p` for every plaintext, nonce, additional data and
 valid key, with `dst` sized by the helpers (fresh, or the input's own memory — the content
@@ -193,17 +115,7 @@ theorem c08_gcm_roundtrip (A : AEAD) (dst dst' pt key nonce ad : Bytes)
       aesGCMDecrypt A dst' ct key nonce ad = .ok pt ∧
       (∀ ct' ad', A.openF key nonce ct' ad' = none →
         aesGCMDecrypt A dst' ct' key nonce ad' = .err "open") := by
-  obtain ⟨_, hl, henc⟩ := c08_gcm_lens A dst pt key nonce ad hseal hk hn hdst
-  have hk' : ¬ (¬ keyOK key = true) := by simp [hk]
-  have hn' : ¬ nonce.length = 0 := fun h => hn (List.length_eq_zero_iff.mp h)
-  refine ⟨_, henc, ?_, ?_⟩
-  · unfold aesGCMDecrypt
-    rw [if_neg hk', if_neg hn', hopen]
-    simp only []
-    rw [appendInto_exact _ _ (by rw [hl] at hdst'; exact_mod_cast hdst')]
-  · intro ct' ad' h
-    unfold aesGCMDecrypt
-    rw [if_neg hk', if_neg hn', h]
+  apply main_gcm_roundtrip <;> assumption
 
 /-- Invalid key sizes (anything but 16, 24, 32 bytes) yield errors from all four entry
 points, whatever the other arguments are (for CBC decryption after the length check). -/
@@ -213,11 +125,18 @@ theorem c08_bad_key (C : Cipher) (A : AEAD) (dst data key iv ad : Bytes) (lay : 
     aesGCMEncrypt A dst data key iv ad = .err "key" ∧
     aesGCMDecrypt A dst data key iv ad = .err "key" ∧
     (aesCBCDecrypt C lay data key iv = .err "len" ∨ aesCBCDecrypt C lay data key iv = .err "key") := by
-  have hk' : ¬ keyOK key = true := by simp [hk]
-  refine ⟨?_, ?_, ?_, (c08_cbc_decrypt_rejects C lay data key iv).2.1 hk⟩
-  · unfold aesCBCEncrypt; rw [if_pos hk']
-  · unfold aesGCMEncrypt; rw [if_pos hk']
-  · unfold aesGCMDecrypt; rw [if_pos hk']
+  apply main_bad_key <;> assumption
+
+/-- The facts the model hard-codes, against `Golib/Gen/FactsC08.lean`, which the go/ast
+extractor regenerates from `cryptz/aes.go` on every run: the constants, the size of the
+padding table, the bound of the `init()` loop, and that the model's table is what that loop
+computes entry by entry. -/
+theorem c08_facts_match_model :
+    Gen.C08.extractorOK = true ∧ Gen.C08.blockSizeMask = blockSizeMask ∧
+    Gen.C08.gcmTagSize = gcmTagSize ∧ Gen.C08.nonceSize = nonceSize ∧
+    Gen.C08.padTableSize = aesBlockSize + 1 ∧ Gen.C08.padTableLoopBound = Gen.C08.padTableSize ∧
+    prePadPatterns = (List.range Gen.C08.padTableSize).map Gen.C08.padTableEntry := by
+  decide +kernel
 
 /-! ### Non-vacuity: the hypotheses are satisfiable and the statements bite -/
 
